@@ -8,7 +8,67 @@ import "fmt"
 
 func init() {
 	registerReplay(`^netty\.channel#protect:closeErr`, replayRaceCloseErr, nil)
-	registerReplay(`^netty\.listener#protect:(acceptor|options)`, replayRaceListener, nil)
+	registerReplay(`^netty\.listener#protect:(acceptor|options|closed)`, replayRaceListener, nil)
+	registerReplay(`^netty\.(channel|channelHolder|readIdleHandler|writeIdleHandler)(\.with(Read)?Lock)?#(protect|frame):`, replayRaceChannelAPI, nil)
+}
+
+// A stress probe over the concurrently usable API of one channel with both idle handlers and a
+// holder in its pipeline: writers, Trigger, IsActive/Context, the idle timers' callbacks, CloseAll
+// and Close overlap. Used for every protection obligation of these types that has no dedicated probe.
+func replayRaceChannelAPI(ld *Loaded, o *Obligation, m map[string]string, smt string) (string, string, bool) {
+	src := fmt.Sprintf(`package netty
+
+//replay:race
+import (
+	"bytes"
+	"context"
+	"errors"
+	"net"
+	"sync"
+	"testing"
+	"time"
+
+	"github.com/go-netty/go-netty/transport"
+)
+%s
+// generated for %s
+func TestReplayVerif(t *testing.T) {
+	for _, queue := range []int{0, 8} {
+		for try := 0; try < 30; try++ {
+			mt := &mockTransport{}
+			pl := NewPipeline()
+			holder := NewChannelHolder(4)
+			rd := ReadIdleHandler(time.Second).(*readIdleHandler)
+			wr := WriteIdleHandler(time.Second).(*writeIdleHandler)
+			pl.AddLast(holder, rd, wr)
+			ch := newChannelWith(context.Background(), pl, mt, AsyncExecutor(), int64(try), queue, false)
+			pl.(*pipeline).channel = ch
+			pl.FireChannelActive()
+			var wg sync.WaitGroup
+			run := func(f func()) { wg.Add(1); go func() { defer wg.Done(); f() }() }
+			for w := 0; w < 2; w++ {
+				run(func() {
+					for i := 0; i < 5; i++ {
+						ch.Write([]byte("x"))
+						ch.Write1([]byte("y"))
+						ch.Writev([][]byte{[]byte("z")})
+						ch.Trigger("event")
+						_ = ch.IsActive()
+						_ = ch.Context()
+					}
+				})
+			}
+			run(func() { rd.onReadTimeout(); rd.onReadTimeout() })
+			run(func() { wr.onWriteTimeout(); wr.onWriteTimeout() })
+			run(func() { pl.FireChannelRead(bytes.NewReader([]byte("in"))) })
+			run(func() { time.Sleep(time.Millisecond); holder.CloseAll(errors.New("shutdown")) })
+			run(func() { time.Sleep(time.Millisecond); ch.Close(errors.New("bye")) })
+			wg.Wait()
+		}
+	}
+}
+`, mockTransport, o.Name)
+	return ".", src, true
 }
 
 func replayRaceCloseErr(ld *Loaded, o *Obligation, m map[string]string, smt string) (string, string, bool) {
